@@ -47,7 +47,8 @@ Prods == [
   AliasOpt |-> << <<>>, <<"as", "<a", "alias", ">a">>, <<"<a", "alias", ">a">> >>,
   Expr     |-> << <<"Atom">>, <<"Atom", "op", "Expr">>, <<"<par", "lp", "Expr", "rp", ">par">>,
                   <<"<par", "lp", "Select", "rp", ">par">>, <<"Func">>, <<"Case">>,
-                  <<"Ref", "dcolon", "typename">>, <<"TypedLit">>, <<"Ref", "<br", "lbr", "num", "rbr", ">br">>, <<"Atom">> >>,
+                  <<"Ref", "dcolon", "typename">>, <<"TypedLit">>, <<"Ref", "<br", "lbr", "num", "rbr", ">br">>, <<"Atom">>,
+                  <<"Ref", "<br", "lbr", "name", "colon", "name", "rbr", ">br">> >>,        \* array slice: a bare `:` token
   Atom     |-> << <<"Ref">>, <<"num">>, <<"str">>, <<"ph">>, <<"null">>, <<"Ref">>, <<"sign", "Ref">> >>,
   Lit      |-> << <<"num">>, <<"str">>, <<"ph">> >>,
   Func     |-> << <<"<fn", "fname", "<par", "lp", "Args", "rp", ">par", ">fn">>,
@@ -85,7 +86,12 @@ Prods == [
   LimitOpt |-> << <<>>, <<"limit", "num">> >>,
   SetOpt   |-> << <<>>, <<"setop", "Select">> >>,
   Ctes     |-> << <<"Cte">>, <<"Cte", "comma", "Ctes">> >>,
-  Cte      |-> << <<"name", "as", "<par", "lp", "Select", "rp", ">par">> >>,
+  Cte      |-> << <<"name", "as", "<par", "lp", "Select", "rp", ">par">>,
+                  <<"CteName", "<par", "lp", "ColNames", "rp", ">par", "as", "<par", "lp", "Select", "rp", ">par">>,   \* WITH "t"(n) AS (...)
+                  <<"CteName", "as", "materialized", "<par", "lp", "Select", "rp", ">par">>,
+                  <<"CteName", "as", "<par", "lp", "Select", "rp", ">par">> >>,
+  CteName  |-> << <<"name">>, <<"dqname">>, <<"btname">> >>,
+  ColNames |-> << <<"name">>, <<"name", "comma", "ColNames">> >>,
   Insert   |-> << <<"insert", "into", "<id", "Ref", ">id", "ColsOpt", "values", "Rows">>,
                   <<"insert", "into", "<id", "Ref", ">id", "ColsOpt", "Select">> >>,
   ColsOpt  |-> << <<>>, <<"<par", "lp", "<list", "RefItems", ">list", "rp", ">par">> >>,
@@ -97,7 +103,8 @@ Prods == [
   RetOpt   |-> << <<>>, <<"returning", "<list", "RefItems", ">list">> >>,
   Delete   |-> << <<"delete", "from", "<id", "Ref", ">id", "WhereOpt">> >>,
   CreateTab |-> << <<"create", "table", "<idx", "Ref", ">idx", "<par", "lp", "ColDefs", "rp", ">par">>,
-                   <<"create", "table", "<idx", "Ref", ">idx", "as", "Select">> >>,
+                   <<"create", "table", "<idx", "Ref", ">idx", "as", "Select">>,
+                   <<"create", "table", "<idx", "Ref", ">idx", "<par", "lp", "ColNames", "rp", ">par", "as", "Select">> >>,   \* CTAS with a column list
   ColDefs  |-> << <<"ColDef">>, <<"ColDef", "comma", "ColDefs">> >>,
   ColDef   |-> << <<"name", "typename">>, <<"name", "typename", "notnull">>, <<"name", "typename", "primarykey">> >>,
   \* focused start symbols for individual properties
